@@ -6,6 +6,7 @@ import VelaVerif.Lemmas.TfliteReader
 import VelaVerif.Model.TfliteDemo
 import VelaVerif.Lemmas.TfliteConforms
 import VelaVerif.Lemmas.TfliteConformsMeta
+import VelaVerif.Lemmas.TfliteLoop
 /-!
 # C11 / C14 — the TFLite writer and reader (Model/TfliteWriter.lean, Model/TfliteReader.lean)
 
@@ -500,6 +501,84 @@ theorem written_operand_order (ts : List TensorD) (op : OpD) (p : POp) (h : prep
     (p.ignored = false → p.info.inv.isSome) ∧
     restoredInputs ts p.info op.inputs = .ok p.inputs :=
   prepOp_ok ts op p h
+
+/-! ## (a) assembled: `Reader.read (Writer.write d) = Spec.normalise d`
+
+`Spec.normalise` (Spec/TfliteRoundtrip.lean) is defined on the graph description alone: tensors per written subgraph in the writer's
+order and in the reader's normal form, references renumbered, operators as written (`src_tensor` restored, absent results dropped,
+operator code read back) and then the reader's own graph surgery applied at graph level — virtual outputs, **clone restoration**
+(constant weights / bias cloned again: `Reader.cloneStep`), Const / Placeholder producers, visibility — the interface lists
+de-duplicated, metadata with `bytes` names. The theorem composes the layers (`Lemmas/TfliteLoop.lean`: `tensors_norm`,
+`rcode_of_written`, `parseOperator_norm`, `parseOperators_norm`, `readSubgraph_norm`, `readSubgraphs_norm`, `readMetadata_norm`). -/
+
+/-- **read_write_roundtrip.** For every description the writer accepts (`write d = ok m` — the writer's domain, no further
+hypothesis) the reader's result on the written file is `normalise d`, as `Except` values: the same graph when the reader succeeds,
+and the same error kind when it does not (constant data that does not fit the written shape, weights of the wrong rank for the
+clone, a subgraph input that a written operator produces). Also for any iteration order of the code set (`read_writeWith`). -/
+theorem read_write_roundtrip (d : Desc) (m : ModelT) (h : write d = .ok m) : Reader.read d.version m = Spec.normalise d := by
+  cases hs : (subgraphsToWrite d).mapM (prepSub d.tensors) with
+  | error e => rw [(write_err d e hs []).1] at h; exact absurd h (by simp)
+  | ok subs =>
+    rw [write_eq d subs hs] at h
+    exact Spec.read_writeWith d subs hs _ m h
+
+theorem read_writeWith_roundtrip (d : Desc) (enum : List Code) (m : ModelT) (h : writeWith d enum = .ok m) :
+    Reader.read d.version m = Spec.normalise d := by
+  obtain ⟨subs, _, _, _, _, hs, _⟩ := writeWith_ok d enum m h
+  exact Spec.read_writeWith d subs hs enum m h
+
+/-- the domain on which the loop closes, explicit and executable: `write` and `normalise` succeed, i.e. the writer accepts `d`, every
+constant has the size of its written shape (`Reader.checkData`), constant weights of convolution-like operators have the rank the
+clone transposes (`Reader.cloneStep`), no subgraph input is the result of a written operator (`Tensor.error`) -/
+def roundtripDomainB (d : Desc) : Bool := (write d).toOption.isSome && (Spec.normalise d).toOption.isSome
+
+/-- on that domain: the reader accepts the written file and builds exactly the normal form -/
+theorem read_write_roundtrip_ok (d : Desc) (hd : roundtripDomainB d = true) :
+    ∃ m d', write d = .ok m ∧ Spec.normalise d = .ok d' ∧ Reader.read d.version m = .ok d' := by
+  unfold roundtripDomainB at hd
+  simp only [Bool.and_eq_true] at hd
+  cases hw : write d with
+  | error e => rw [hw] at hd; simp [Except.toOption] at hd
+  | ok m =>
+    cases hn : Spec.normalise d with
+    | error e => rw [hn] at hd; simp [Except.toOption] at hd
+    | ok d' => exact ⟨m, d', rfl, rfl, by rw [read_write_roundtrip d m hw, hn]⟩
+
+/-- not vacuous: the demo graph is in the domain; its normal form has the 7 written tensors in name order plus the re-created clone
+of the constant weights (8), the three written operators behind five Const / Placeholder producers, the convolution reading the
+clone (tensor 7) again with the `None` bias, inputs `x`, `unused` renumbered, the repeated output de-duplicated with positions `[0, 0]` -/
+example : roundtripDomainB demo = true := by decide +kernel
+example : (Spec.normalise demo).toOption.map (fun d => (d.tensors.length, d.tensors.map (·.src))) =
+    some (8, [none, none, none, none, none, none, none, some 3]) := by decide +kernel
+example : (Spec.normalise demo).toOption.map (fun d => d.subgraphs.map fun s => s.ops.map (·.type)) =
+    some [["Const", "Placeholder", "Const", "Placeholder", "Const", "Conv2DBias", "Custom", "Custom"]] := by decide +kernel
+example : (Spec.normalise demo).toOption.map (fun d => d.subgraphs.map fun s => s.ops.map (·.inputs)) =
+    some [[[], [], [], [], [], [some 4, some 7, none], [some 5, some 0], [some 6, some 0]]] := by decide +kernel
+example : (Spec.normalise demo).toOption.map (fun d => d.subgraphs.map fun s => s.ops.map (·.outputs)) =
+    some [[[some 0], [some 1], [some 3], [some 4], [some 7], [some 5], [some 6], [some 2]]] := by decide +kernel
+example : (Spec.normalise demo).toOption.map (fun d => d.subgraphs.map fun s => (s.originalInputs, s.outputTensors, s.originalOutputPositions)) =
+    some [([4, 1], [2], some [0, 0])] := by decide +kernel
+
+/-- … and the two sides of the theorem evaluate to the same graph on it -/
+example : ((write demo).toOption.bind fun m => (Reader.read demo.version m).toOption) = (Spec.normalise demo).toOption ∧
+    (Spec.normalise demo).toOption.isSome = true := by decide +kernel
+
+/-- **read_write_roundtrip_witness (the reader rejects a model output).** Outside the domain: a subgraph whose original input `y`
+is the result of the written convolution — the writer accepts, the reader raises `Tensor.error` on the written file, and `normalise`
+fails with the same kind. -/
+theorem read_write_roundtrip_reject_witness :
+    let d : Desc := { demo with subgraphs := [{ Demo.sg with originalInputs := [3, 0] }, Demo.npu] }
+    ((write d).toOption.map fun m => (match Reader.read d.version m with | .ok _ => "ok" | .error e => e,
+      match Spec.normalise d with | .ok _ => "ok" | .error e => e)) = some ("vela-error", "vela-error") := by decide +kernel
+
+/-- **read_write_roundtrip_witness (normalise is not the identity).** An operator whose only result is absent (`None`) is written
+without results and vanishes on reading (it produces no tensor, so no traversal reaches it): 3 operators in the file, 2 non-producer
+operators in the graph read back. -/
+theorem read_write_roundtrip_resultless_witness :
+    let d : Desc := { demo with subgraphs := [{ Demo.sg with ops := Demo.sg.ops ++ [{ Demo.custom 1 4 7 with outputs := [none] }] }, Demo.npu] }
+    ((write d).toOption.map fun m => (m.subgraphs.map (·.operators.length),
+      (Spec.normalise d).toOption.map fun g => g.subgraphs.map fun s => (s.ops.filter fun o => o.type != "Const" && o.type != "Placeholder").length)) =
+      some ([4], some [3]) := by decide +kernel
 
 /-! ## file → graph → file (what C11 asks of a compilation that changes nothing), layer by layer -/
 
